@@ -48,7 +48,9 @@ async_worker_t* async_worker_create(async_worker_proc_t proc, void* context, siz
     
     worker->proc = proc;
     worker->context = context;
-    worker->state = ASYNC_WORKER_STOPPED;
+    /* running from the moment the thread exists: a timed join issued before the thread got to run must not take the
+     * initial value for "already finished" and block in pthread_join() */
+    worker->state = ASYNC_WORKER_RUNNING;
     worker->thread_created = false;
     
     if (!platform_event_init(&worker->stop_event, true, false)) {
